@@ -1,9 +1,9 @@
 SPECIFICATION GSpec
-CONSTANTS N1 = 2
-          N2 = 1
-          ND = 1
-          NCTX = 4
-          ALPHA = "full"
+CONSTANTS N1 = 4
+          N2 = 0
+          ND = 0
+          NCTX = 8
+          ALPHA = "cuts"
 CHECK_DEADLOCK FALSE
 INVARIANT Emit
 INVARIANT BarrierOK
